@@ -286,6 +286,23 @@ func runC14(c *Ctx) {
 			}
 			return true
 		})
+		// a few longer names that look like features of later protocol versions ('$share/<group>/...' is
+		// an ordinary literal prefix in MQTT 3.1.1)
+		if c.Shard == 0 {
+			for _, pr := range [][2]string{{"$share/g/a/+", "a/x"}, {"$share/g/a/+", "$share/g/a/x"}, {"$share/g/#", "$share/g"}, {"$share/g/", "$share/g/"}, {"$queue/a", "a"}, {"$queue/a", "$queue/a"}} {
+				f, t := pr[0], pr[1]
+				tf, err, pv := c14SafeNew(f)
+				dpairs++
+				if pv != "" || err != nil {
+					c.EnumFail("dollar", "rejected-valid", fmt.Sprintf("filter %q is valid per MQTT 4.7 but was rejected: %v %s", f, err, pv), map[string]any{"filter": f})
+					continue
+				}
+				want := c14Matches(f, t)
+				if got, pm := c14SafeMatch(tf, t); pm != "" || got != want {
+					c.EnumFail("dollar", fmt.Sprintf("dollar-topic/got-%v", got), fmt.Sprintf("filter %q topic %q: library Match=%v %s, level-wise rules say %v", f, t, got, pm, want), map[string]any{"filter": f, "topic": t})
+				}
+			}
+		}
 		c.Res.Evaluations += dpairs
 		c.Res.Parts["dollar_topic_pairs"] = dpairs
 	}
@@ -387,7 +404,7 @@ func runC14(c *Ctx) {
 
 	// ---- part "reentrant": a handler that registers a further handler on the mux it is called from
 	// (explored under the scheduler so that a self-deadlock is a verdict, not a hang)
-	c.Bound("reentrant", "a ServeMux whose first handler registers a second handler on the same mux while it is being served; two messages; the second message must reach both handlers in registration order")
+	c.Bound("reentrant", "a ServeMux whose first handler registers a second handler on the same mux while it is being served; three messages (the first topic twice); every message after the registration must reach both handlers in registration order")
 	{
 		var calls []string
 		sc := &vrt.Scenario{
@@ -410,11 +427,12 @@ func runC14(c *Ctx) {
 					return
 				}
 				mux.Serve(&mqtt.Message{Topic: "b/1"})
+				mux.Serve(&mqtt.Message{Topic: "b/1"}) // the same topic again, right after the registration
 				mux.Serve(&mqtt.Message{Topic: "b/2"})
 				got := strings.Join(calls, " ")
 				// the handler registered during the first dispatch may or may not see the first message
-				if got != "first:b/1 first:b/2 second:b/2" && got != "first:b/1 second:b/1 first:b/2 second:b/2" {
-					vrt.Failf("reentrant/dispatch", "handler invocations %q; the second message must be handed to both handlers in registration order", got)
+				if got != "first:b/1 first:b/1 second:b/1 first:b/2 second:b/2" && got != "first:b/1 second:b/1 first:b/1 second:b/1 first:b/2 second:b/2" {
+					vrt.Failf("reentrant/dispatch", "handler invocations %q; every message after the registration must be handed to both handlers in registration order", got)
 				}
 			},
 			Observe: func() uint64 { return vrt.HashString(strings.Join(calls, " ")) },
